@@ -203,4 +203,79 @@ def c_lints(ctx, P, scope, rule="C-LINT", tus=None):
             elif unused:
                 why = "parameter(s) %s never read and not marked TSK_UNUSED" % unused
             ctx.ob(rule, fn.name, ok, where, why)
+    copy_paste(ctx, P, scope, tus=tus)
+    return n
+
+
+_TOK = re.compile(r"->|\+\+|--|<=|>=|==|!=|&&|\|\||\+=|-=|\*=|/=|[A-Za-z_]\w*|\d+|\"[^\"]*\"|\S")
+COPYPASTE_OK = {
+    ("tsk_ls_hmm_init", "transitions"): "sizeof(*self->transitions) used for transitions_copy: both are tsk_transition_t arrays",
+    ("tsk_viterbi_matrix_traceback", "path"): "sizeof(*path) used for recombination_tree: both are tsk_id_t arrays",
+}
+
+
+def _roles(text):
+    toks = _TOK.findall(text)
+    out = []
+    for i, t in enumerate(toks):
+        if re.match(r"[A-Za-z_]", t):
+            role = "f:" if i > 0 and toks[i - 1] in ("->", ".") else "v:"
+            out.append(role + t)
+        else:
+            out.append(t)
+    return out
+
+
+def copy_paste(ctx, P, scope, rule="COPY-PASTE", tus=None):
+    ctx.rule(rule, "two consecutive statements of identical shape in which a symbol that occurs several times in the first is renamed at "
+                   "some of its positions in the second but kept at others (`memcpy(dest->a, self->a, n * sizeof(*self->a))` followed "
+                   "by `memcpy(dest->b, self->a, n * sizeof(*self->b))`) are an inconsistent copy-paste edit; fields and variables of "
+                   "the same name are distinct symbols")
+    n = 0
+    for key in (tus or LIB_TUS + ["kastore", "module"]):
+        tu = P.tus[key]
+        for fn in tu.funcs.values():
+            if not scope(key, fn.name):
+                continue
+            k = 0
+            for blk in walk(fn.body):
+                if blk.k != "CompoundStmt":
+                    continue
+                stmts = [s for s in blk.kids if s is not None and s.k in ("BinaryOperator", "CallExpr", "CompoundAssignOperator")]
+                for s1, s2 in zip(stmts, stmts[1:]):
+                    t1, t2 = _roles(estr(s1)), _roles(estr(s2))
+                    if len(t1) != len(t2) or len(t1) < 6:
+                        continue
+                    if any((a[:2] not in ("f:", "v:")) and a != b for a, b in zip(t1, t2)):
+                        continue          # different shape
+                    if t1 == t2:
+                        continue
+
+                    def call_of(st):
+                        for x in walk(st):
+                            if x.k == "CallExpr":
+                                return callee(x)
+                        return None
+                    # only parallel statements: the same function applied to two sets of arguments
+                    if call_of(s1) is None or call_of(s1) != call_of(s2):
+                        continue
+                    n += 1
+                    pos = {}
+                    for i, a in enumerate(t1):
+                        if a[:2] in ("f:", "v:"):
+                            pos.setdefault(a, []).append(i)
+                    bad = None
+                    for a, ps in pos.items():
+                        if len(ps) < 2:
+                            continue
+                        images = {t2[i] for i in ps}
+                        if len(images) > 1 and a in images:
+                            if (fn.name, a[2:]) in COPYPASTE_OK:
+                                continue
+                            bad = (a[2:], sorted(x[2:] for x in images if x != a))
+                    if bad:
+                        ctx.ob(rule, "%s@%d|%s" % (fn.name, k, bad[0]), False, tu.loc(s2),
+                               "`%s` is renamed to %s at some positions but kept at others: `%s` after `%s`" % (bad[0], bad[1], estr(s2)[:110], estr(s1)[:110]))
+                        k += 1
+    ctx.ob(rule, "pairs", True, "(scope)", "%d same-shape statement pairs examined" % n)
     return n
